@@ -148,6 +148,14 @@ let gamma_of_tag (tag : string) : float gamma_fn =
   else if tag = "gr" then (fun _ _ _ _ _ r -> fnum.fdiv 1.0 (float_of_int (int_of_nat r + 1)))
   else if tag = "gt" then
     (fun _ k _ _ team _ -> fnum.fdiv (float_of_int (List.length team)) (float_of_int (int_of_nat k)))
+  else if tag = "gm" then
+    (* uses the team mean: |mu| / (|mu| + c) *)
+    (fun c _ mu _ _ _ -> fnum.fdiv (Float.abs mu) (Float.abs mu +. c))
+  else if tag = "gp" then
+    (* uses the members it is handed: mean of their sigma over c *)
+    (fun c _ _ _ team _ ->
+       fnum.fdiv (List.fold_left (fun acc (r : float rating) -> acc +. r.r_sigma) 0.0 team)
+         (c *. float_of_int (List.length team)))
   else raise (Bad ("gamma tag " ^ tag))
 
 (* ---------- token reader ---------- *)
